@@ -1122,8 +1122,8 @@ Theorem bind_history_as_found_refuted :
   wf w_sel /\ sequential w_sel /\ wf_env (env_lag row_lag1) /\ wf_env (env_lag row_lag2) /\
   handle id_trim cd0 as_found (env_lag row_lag1) w_sel (RGetBindingHistory []) = Panic PBindHistIndex /\
   handle id_trim cd0 as_found (env_lag row_lag2) w_sel (RGetBindingHistory []) = Panic PBindHistTargetNil /\
-  handle id_trim cd0 current_code (env_lag row_lag1) w_sel (RGetBindingHistory []) = Panic PBindHistIndex /\
-  handle id_trim cd0 current_code (env_lag row_lag2) w_sel (RGetBindingHistory []) = Panic PBindHistTargetNil /\
+  handle id_trim cd0 code_before_second_group_repairs (env_lag row_lag1) w_sel (RGetBindingHistory []) = Panic PBindHistIndex /\
+  handle id_trim cd0 code_before_second_group_repairs (env_lag row_lag2) w_sel (RGetBindingHistory []) = Panic PBindHistTargetNil /\
   (* repaired: the rows whose transaction is gone are left out, the others are reported *)
   handle id_trim cd0 all_fixed (env_lag row_lag1) w_sel (RGetBindingHistory []) = Ok tt /\
   handle id_trim cd0 all_fixed (env_lag row_lag2) w_sel (RGetBindingHistory []) = Ok tt.
@@ -1133,17 +1133,17 @@ Proof.
   repeat split; vm_compute; reflexivity.
 Qed.
 
-(* the code as it stands: every switch but the one of GetBindingHistoryDetail is in the repaired position *)
+(* the code as it stands (after /repo commits 9638031 and d0557bc): every switch is in the repaired position *)
 Lemma current_code_switches :
   current_code = {| fx_cti_index := true; fx_cti_block := true; fx_cti_dup := true; fx_senders := true; fx_sign_meta := true; fx_sign_len0 := true;
                     fx_cur_nil := true; fx_cur3_nil := true; fx_import_rec := true; fx_taskchan := true; fx_select_neg := true;
-                    fx_cur_evicted := false; fx_bindhist_hash := false |}.
+                    fx_cur_evicted := true; fx_bindhist_hash := true |}.
 Proof. reflexivity. Qed.
 
-(* the code as it stands can panic only at the two sites of GetBindingHistory and at the cache look-up of ValidateAddress *)
+(* the code before the two repairs could panic only at the two sites of GetBindingHistory and at the cache look-up of ValidateAddress *)
 Theorem current_code_panics_only_at_known_sites trim cd e w r p :
   wf w -> wf_env e -> selected_ok w e -> req_ok r ->
-  handle trim cd current_code e w r = Panic p -> p = PBindHistIndex \/ p = PBindHistTargetNil \/ p = PCurEvictedNil.
+  handle trim cd code_before_second_group_repairs e w r = Panic p -> p = PBindHistIndex \/ p = PBindHistTargetNil \/ p = PCurEvictedNil.
 Proof.
   intros Hw He Hs Hr H.
   pose proof (handle_panic_only_unfixed _ _ _ _ _ _ _ Hw He Hs Hr H) as G.
@@ -1169,7 +1169,7 @@ Definition w_evicted : wst := {| cur := None; cur2 := None; cur3 := None; st := 
 Theorem cur_evicted_refuted :
   wf w_evicted /\ wf_env env0 /\
   handle id_trim cd0 as_found env0 w_evicted (RValidateAddress [109]) = Panic PCurEvictedNil /\
-  handle id_trim cd0 current_code env0 w_evicted (RValidateAddress [109]) = Panic PCurEvictedNil /\
+  handle id_trim cd0 code_before_second_group_repairs env0 w_evicted (RValidateAddress [109]) = Panic PCurEvictedNil /\
   handle id_trim cd0 all_fixed env0 w_evicted (RValidateAddress [109]) = Err ErrAPINoWalletInUse /\
   (* an address that does not decode is answered before the keystore is consulted; the other requests see "no wallet in use" *)
   handle id_trim cd0 as_found env0 w_evicted (RValidateAddress [122]) = Ok tt /\
